@@ -7,6 +7,8 @@ for res in sorted(glob.glob('/tmp/wt/results/C*_*.json')):
     if not ok:
         print("skip (not confirmed):", res); continue
     seed = r["seed"]; sid = os.path.basename(res)[:-5]
+    if not os.path.isdir(seed):
+        continue  # imported in an earlier round; its worktree is gone
     dst = f"/verif/seeded/{sid}"
     if os.path.exists(dst): shutil.rmtree(dst)
     os.makedirs(dst)
